@@ -222,12 +222,23 @@ def get_unescaped_str(string: str, qm: str) -> str:
     return "".join(out)
 
 
+# a float literal too large to be represented, it is evaluated as infinity
+_INFSTR = "1e" + repr(sys.float_info.max_10_exp + 1)
+
+
 def unparse_Constant(node: Constant, qm: typing.Literal["'", '"']) -> unparse_gen_t:
     if node.value is ...:
         return "..."
     if isinstance(node.value, str):
         value = get_unescaped_str(node.value, qm)
         return f"{qm}{value}{qm}"
+    if isinstance(node.value, (float, complex)):
+        # inf and nan have no literal, "inf" would be parsed as a name (same as ast.unparse)
+        return (
+            repr(node.value)
+            .replace("inf", _INFSTR)
+            .replace("nan", f"({_INFSTR}-{_INFSTR})")
+        )
     return repr(node.value)
     yield
 
